@@ -69,6 +69,11 @@ def generate(rng: random.Random, tier: str, seed: int) -> dict:
           "cli_transport": rng.random() < 0.5,
           "shared_orchestrator": rng.random() < 0.4,
           "yaml_path": rng.random() < 0.3}             # fresh mode: the configuration is (re)written to a YAML file and loaded by path before every run   # fresh mode: every new Pipeline is given the same orchestrator instance         # launch / launches: the configuration selects its transport explicitly
+    if "launches" in modes:
+        # repeated in-process launches are where per-launch bookkeeping (emitters, drivers, handlers) would pile up: most of
+        # these histories are traced run-space launches
+        sc["traced"] = rng.random() < 0.75
+        sc["launches_run_space"] = rng.random() < 0.75
     if rng.random() < 0.3:
         # the repeated configuration FAILS at a node after the first one (every repetition raises / fails its Future)
         fs = [f for f in gen.applicable_failures(base) if f[0] in ("unresolvable", "type_gate", "undeclared_op", "undeclared_ctx") and f[1] >= 1]
